@@ -24,7 +24,9 @@ Print Assumptions C07_key_inj_needs_side_condition.
 (* Refinement.  For every history of client handshakes against arbitrary peers
    (restarted servers, broken connections, any reply), clock ticks, Invalidate,
    InvalidateExpired and LookupNonExpired in which tags/addresses/commands are
-   comma-free and no server announces an id the cache still refers to:
+   comma-free (the ONLY side condition: since fix dcd50bb a session registered under
+   an id that is still cached takes the id over without inheriting the earlier
+   entry's routes, so servers may announce any id, fresh or not):
    the cache is exactly the image of the reference map under the key encoding;
    LookupByCommand answers what the reference map answers; the session a
    handshake rides (client_action = AResume sid) is the reference map's; and the
@@ -86,18 +88,11 @@ Print Assumptions C07_cache_is_a_map.
 
 (* No orphan mappings: in every reachable state each command mapping leads to a
    stored session (Invalidate, InvalidateExpired and -- since fix c4d0e8b --
-   LookupNonExpired all remove a session's mappings with it).  Hence the freshness
-   side condition of C07_refines ("no server announces an id the cache still refers
-   to") only ever speaks about sessions that are still stored. *)
+   LookupNonExpired all remove a session's mappings with it). *)
 Theorem C07_no_orphans : forall h kv,
   In kv (c_cmdmap (fst (run h))) -> find_sess (snd kv) (c_sessions (fst (run h))) <> None.
 Proof. exact no_orphans_run. Qed.
 Print Assumptions C07_no_orphans.
-Theorem C07_used_means_stored : forall h id,
-  In id (used (fst (run h))) -> find_sess id (c_sessions (fst (run h))) <> None.
-Proof. intros h id. apply used_stored. apply no_orphans_run. Qed.
-Print Assumptions C07_used_means_stored.
-
 (* ConnectAndAuthenticateWithConfig: after such a failure the retry is a full handshake *)
 Theorem C07_retry_is_full : forall c now t a cm p1 p2 e,
   cache_ok c -> a <> [] ->
@@ -176,3 +171,21 @@ Example C07_example_rides :
   client_action c now [] [] ex_addr (Some ex_60007) = AFull /\
   client_action c now [] [] ex_addr (Some ex_421) = AFull.
 Proof. vm_compute. repeat split. Qed.
+
+(* a server announcing an id that is still cached (here: S1 again, for a tag-less
+   handshake) takes the id over; the earlier routes are gone, the new one is live *)
+Definition ex_history2 : list event :=
+  [ EHandshake ex_tagA ex_addr (Some ex_421) (ex_peer [x53; x31] RAuthorized);
+    EHandshake [] ex_addr (Some ex_421) (ex_peer [x53; x31] RAuthorized) ].
+Example C07_example_reannounced :
+  good ex_history2 /\
+  let '(c, now) := run ex_history2 in
+  client_action c now [] ex_tagA ex_addr (Some ex_421) = AFull /\
+  client_action c now [] ex_tagA ex_addr (Some ex_60007) = AFull /\
+  client_action c now [] [] ex_addr (Some ex_60007) = AResume [x53; x31].
+Proof.
+  split.
+  - unfold good, ex_history2. cbn [good_from].
+    repeat split; try (intro H; vm_compute in H; intuition discriminate).
+  - vm_compute. repeat split.
+Qed.
